@@ -72,11 +72,6 @@ Proof.
 Qed.
 
 
-Section HK.
-(* hk: an error hook (RegisterRedactErrorFn) is installed; error values are then rendered by the
-   hook's script, which this development does not relate *)
-Variable hk : bool.
-
 (* trees: slices, arrays, structs, maps (keys shared), interface slots and pointers over related
    leaves; container types are not declared safe; values of user types whose String / Error /
    GoString method returns related strings (no Formatter, SafeFormatter, SafeMessager; value
@@ -96,7 +91,6 @@ Inductive vrel : value -> value -> Prop :=
 | vr_user t i r1 r2 x1 x2 rest1 rest2 :
     treg t = false -> tsv t = false ->
     iFormatter i = false -> iSafeFormatter i = false -> iSafeMessager i = false ->
-    (iError i = true -> hk = false) ->
     (x1 = x2 \/ srel x1 x2) -> vrel r1 r2 ->
     vrel (VUser t i false r1 (ARet x1 :: rest1)) (VUser t i false r2 (ARet x2 :: rest2))
 (* values whose Format / SafeFormat method runs a script against the printer: the same calls with
@@ -104,7 +98,6 @@ Inductive vrel : value -> value -> Prop :=
 | vr_fmtuser t i r1 r2 sc1 sc2 :
     treg t = false -> tsv t = false ->
     iFormatter i = true -> iSafeFormatter i = false -> iSafeMessager i = false ->
-    (iError i = true -> hk = false) ->
     Forall2 actrel sc1 sc2 -> vrel r1 r2 ->
     vrel (VUser t i false r1 sc1) (VUser t i false r2 sc2)
 | vr_sfuser t i r1 r2 sc1 sc2 :
@@ -792,7 +785,8 @@ Section Rec.
   Hypothesis Hkrec : forall c, kovr (rec c).
   Hypothesis Hkeeps : rec_keeps rec.
   Hypothesis Hos : osane (orc env).
-  Hypothesis Hhk : hk = false -> hook env = None.
+  (* the error hook's script, if one is installed, is related to itself *)
+  Hypothesis Hhook : match hook env with Some h => Forall2 actrel h h | None => True end.
 
   Lemma J_badverb_call verb : J any (rec (CBadVerb verb) ;;; ret tt) (rec (CBadVerb verb) ;;; ret tt).
   Proof.
@@ -1043,33 +1037,53 @@ Section Rec.
       else ret false
     else ret false.
 
+  Definition script_call (a : value) (verb : Z) (method : string) (sc : list action) : M bool :=
+    catch_panic rec a verb method (rec (CActs a verb sc) ;;; ret tt) ;;; ret true.
+
+  (* an error value: rendered by the hook's script when one is installed and no unsafe override is active *)
+  Definition via_hook (a : value) (i : ifaces) (verb : Z) (s : pst) (std : M bool) : M bool :=
+    if negb (ovr_eqb (povr s) OvrUnsafe) && iError i then
+      match hook env with Some h => script_call a verb "SafeFormatter" h | None => std end
+    else std.
+
   Lemma handleMethods_user_run verb s t i r x rest :
     parg s = Some (VUser t i false r (ARet x :: rest)) -> wrapErrs s = false ->
-    iFormatter i = false -> iSafeFormatter i = false -> iSafeMessager i = false -> (iError i = true -> hook env = None) ->
+    iFormatter i = false -> iSafeFormatter i = false -> iSafeMessager i = false ->
     handleMethods rec env verb s =
     if erroring s then (ROk false, s)
-    else if verb =? 119 then hm_bad verb s else user_std (VUser t i false r (ARet x :: rest)) i x verb s.
+    else if verb =? 119 then hm_bad verb s
+    else via_hook (VUser t i false r (ARet x :: rest)) i verb s (user_std (VUser t i false r (ARet x :: rest)) i x verb) s.
   Proof.
-    intros Ea Hw F1 F2 F3 Hh. unfold handleMethods, bind at 1, Printer.get. cbn iota beta.
+    intros Ea Hw F1 F2 F3. unfold handleMethods, bind at 1, Printer.get. cbn iota beta.
     destruct (erroring s); [reflexivity|]. rewrite Ea, Hw. cbn [negb orb]. rewrite Bool.orb_true_r, Bool.andb_true_r.
     destruct (verb =? 119); [reflexivity|].
     unfold bind at 1, ret at 1. cbn iota beta.
-    rewrite F1, F2, F3.
-    assert (forall std : M bool, (if iError i then match hook env with
-              | Some h => catch_panic rec (VUser t i false r (ARet x :: rest)) verb "SafeFormatter" (rec (CActs (VUser t i false r (ARet x :: rest)) verb h) ;;; ret tt) ;;; ret true
-              | None => std end else std) = std) as Hstd.
-    { intros std. destruct (iError i); [rewrite (Hh eq_refl)|]; reflexivity. }
-    rewrite Hstd.
-    match goal with |- (if ?c then ?m else ?m) s = _ => replace (if c then m else m) with m by (destruct c; reflexivity) end.
-    unfold user_std. apply bind_cong_r. intros f s0.
-    destruct (sharpV (fl f)).
-    - destruct (iGoStringer i); [|reflexivity]. apply bind_cong_l.
-      apply catch_panic_ext. intros s1. apply bracket_ext. intros s2. reflexivity.
-    - destruct (isv verb "vsxXq"); [|reflexivity].
-      destruct (iError i); [apply bind_cong_l; apply catch_panic_ext; intros s1; reflexivity|].
-      destruct (iStringer i); [|reflexivity]. apply bind_cong_l; apply catch_panic_ext; intros s1; reflexivity.
+    rewrite F1, F2, F3. unfold via_hook.
+    assert (forall s0, (f <- getf ;;
+              (if sharpV (fl f)
+               then if iGoStringer i
+                    then catch_panic rec (VUser t i false r (ARet x :: rest)) verb "GoString"
+                           (bracket start_unsafe (str <- user_string (VUser t i false r (ARet x :: rest)) ;; f0 <- getf ;; wr (fmt_s f0 str))) ;;; ret true
+                    else ret false
+               else if isv verb "vsxXq"
+                    then if iError i
+                         then catch_panic rec (VUser t i false r (ARet x :: rest)) verb "Error"
+                                (str <- user_string (VUser t i false r (ARet x :: rest)) ;; fmtString rec env str verb) ;;; ret true
+                         else if iStringer i
+                              then catch_panic rec (VUser t i false r (ARet x :: rest)) verb "String"
+                                     (str <- user_string (VUser t i false r (ARet x :: rest)) ;; fmtString rec env str verb) ;;; ret true
+                              else ret false
+                    else ret false)) s0 = user_std (VUser t i false r (ARet x :: rest)) i x verb s0) as Hstd.
+    { intros s0. unfold user_std. apply bind_cong_r. intros f s1.
+      destruct (sharpV (fl f)).
+      - destruct (iGoStringer i); [|reflexivity]. apply bind_cong_l.
+        apply catch_panic_ext. intros s2. apply bracket_ext. intros s3. reflexivity.
+      - destruct (isv verb "vsxXq"); [|reflexivity].
+        destruct (iError i); [apply bind_cong_l; apply catch_panic_ext; intros s2; reflexivity|].
+        destruct (iStringer i); [|reflexivity]. apply bind_cong_l; apply catch_panic_ext; intros s2; reflexivity. }
+    destruct (negb (ovr_eqb (povr s) OvrUnsafe)); cbn [andb]; [|apply Hstd].
+    destruct (iError i); [|apply Hstd]. destruct (hook env); [reflexivity | apply Hstd].
   Qed.
-
 
   Lemma Juser_std a1 a2 i x1 x2 verb : (x1 = x2 \/ srel x1 x2) ->
     JS (HS (x1 = x2)) eq (user_std a1 i x1 verb) (user_std a2 i x2 verb).
@@ -1088,28 +1102,21 @@ Section Rec.
   Qed.
 
   (* handleMethods on a value whose Format / SafeFormat method runs a script *)
-  Definition script_call (a : value) (verb : Z) (method : string) (sc : list action) : M bool :=
-    catch_panic rec a verb method (rec (CActs a verb sc) ;;; ret tt) ;;; ret true.
-
   Lemma handleMethods_fmt_run verb s t i r sc :
     parg s = Some (VUser t i false r sc) -> wrapErrs s = false ->
-    iFormatter i = true -> iSafeFormatter i = false -> iSafeMessager i = false -> (iError i = true -> hook env = None) ->
+    iFormatter i = true -> iSafeFormatter i = false -> iSafeMessager i = false ->
     handleMethods rec env verb s =
     if erroring s then (ROk false, s)
-    else if verb =? 119 then hm_bad verb s else script_call (VUser t i false r sc) verb "Format" sc s.
+    else if verb =? 119 then hm_bad verb s
+    else via_hook (VUser t i false r sc) i verb s (script_call (VUser t i false r sc) verb "Format" sc) s.
   Proof.
-    intros Ea Hw F1 F2 F3 Hh. unfold handleMethods, bind at 1, Printer.get. cbn iota beta.
+    intros Ea Hw F1 F2 F3. unfold handleMethods, bind at 1, Printer.get. cbn iota beta.
     destruct (erroring s); [reflexivity|]. rewrite Ea, Hw. cbn [negb orb]. rewrite Bool.orb_true_r, Bool.andb_true_r.
     destruct (verb =? 119); [reflexivity|].
     unfold bind at 1, ret at 1. cbn iota beta.
-    rewrite F1, F2, F3.
-    assert (forall std : M bool, (if iError i then match hook env with
-              | Some h => catch_panic rec (VUser t i false r sc) verb "SafeFormatter" (rec (CActs (VUser t i false r sc) verb h) ;;; ret tt) ;;; ret true
-              | None => std end else std) = std) as Hstd.
-    { intros std. destruct (iError i); [rewrite (Hh eq_refl)|]; reflexivity. }
-    rewrite Hstd.
-    match goal with |- (if ?c then ?m else ?m) s = _ => replace (if c then m else m) with m by (destruct c; reflexivity) end.
-    reflexivity.
+    rewrite F1, F2, F3. unfold via_hook.
+    destruct (negb (ovr_eqb (povr s) OvrUnsafe)); cbn [andb]; [|reflexivity].
+    destruct (iError i); [|reflexivity]. destruct (hook env); reflexivity.
   Qed.
 
   Lemma handleMethods_sf_run verb s t i r sc :
@@ -1155,19 +1162,24 @@ Section Rec.
         * destruct H as (L1 & _). destruct a1; discriminate.
         * (* String / Error / GoString *)
           match goal with Hx : _ = _ \/ srel _ _ |- _ => rename Hx into Hxs end.
-          rewrite (handleMethods_user_run verb s1 _ _ _ _ _ E1 (nb_nw _ _ N)) by (try assumption; intros Hi; apply Hhk; auto).
-          rewrite (handleMethods_user_run verb s2 _ _ _ _ _ E2 Hw2) by (try assumption; intros Hi; apply Hhk; auto).
+          rewrite (handleMethods_user_run verb s1 _ _ _ _ _ E1 (nb_nw _ _ N)) by assumption.
+          rewrite (handleMethods_user_run verb s2 _ _ _ _ _ E2 Hw2) by assumption.
           rewrite <- (nb_err _ _ N).
           destruct (erroring s1); [refine (conj eq_refl (conj N (conj S _))); apply seg_refl|].
           destruct (verb =? 119); [apply J_hm_bad; auto|].
-          apply Juser_std; auto. intros Hos1. destruct (Hnos Hos1).
+          unfold via_hook. rewrite <- (nb_ovr _ _ N).
+          destruct (negb (ovr_eqb (povr s1) OvrUnsafe) && iError i);
+            [destruct (hook env) as [h|]; [apply Jscript_call; auto|]|];
+            (apply Juser_std; auto; intros Hos1; destruct (Hnos Hos1)).
         * (* Format *)
-          rewrite (handleMethods_fmt_run verb s1 _ _ _ _ E1 (nb_nw _ _ N)) by (try assumption; intros Hi; apply Hhk; auto).
-          rewrite (handleMethods_fmt_run verb s2 _ _ _ _ E2 Hw2) by (try assumption; intros Hi; apply Hhk; auto).
+          rewrite (handleMethods_fmt_run verb s1 _ _ _ _ E1 (nb_nw _ _ N)) by assumption.
+          rewrite (handleMethods_fmt_run verb s2 _ _ _ _ E2 Hw2) by assumption.
           rewrite <- (nb_err _ _ N).
           destruct (erroring s1); [refine (conj eq_refl (conj N (conj S _))); apply seg_refl|].
           destruct (verb =? 119); [apply J_hm_bad; auto|].
-          apply Jscript_call; auto.
+          unfold via_hook. rewrite <- (nb_ovr _ _ N).
+          destruct (negb (ovr_eqb (povr s1) OvrUnsafe) && iError i);
+            [destruct (hook env) as [h|]; [apply Jscript_call; auto|]|]; apply Jscript_call; auto.
         * (* SafeFormat *)
           rewrite (handleMethods_sf_run verb s1 _ _ _ _ E1 (nb_nw _ _ N)) by assumption.
           rewrite (handleMethods_sf_run verb s2 _ _ _ _ E2 Hw2) by assumption.
@@ -2116,8 +2128,12 @@ Section Rec.
   Qed.
 End Rec.
 
+(* the error hook's script (if a hook is installed) must be related to itself: its Print / Printf
+   operands are values of the universe above *)
+Definition hook_ok (e : env) : Prop := match hook e with Some h => Forall2 actrel h h | None => True end.
+
 (* every fuel: the evaluator on related leaf calls *)
-Theorem ev_leaf_rel fuel env : osane (orc env) -> (hk = false -> hook env = None) -> rec_ok (ev fuel env).
+Theorem ev_leaf_rel fuel env : osane (orc env) -> hook_ok env -> rec_ok (ev fuel env).
 Proof.
   intros Ho Hh. induction fuel as [|k IH]; intros c1 c2 Hc.
   - intros s1 s2 _ _ _. exact Logic.I.
@@ -2136,7 +2152,7 @@ Proof.
 Qed.
 
 Theorem sprintf_tree_dsim fuel env f a1 a2 o1 o2 :
-  osane (orc env) -> (hk = false -> hook env = None) -> no_star f = true -> Forall2 arel a1 a2 ->
+  osane (orc env) -> hook_ok env -> no_star f = true -> Forall2 arel a1 a2 ->
   sprintf fuel env f a1 = ROk o1 -> sprintf fuel env f a2 = ROk o2 ->
   exists ops1 ops2 m', o_log o1 = ops1 ++ [OTake] /\ o_log o2 = ops2 ++ [OTake] /\
                        o_bytes o1 = output ops1 /\ o_bytes o2 = output ops2 /\ dsim MUnsafe ops1 ops2 m'.
@@ -2160,8 +2176,8 @@ Proof.
 Qed.
 
 (* Non-interference of Sprintf for leaf operands: Redact() of the two results is byte-identical *)
-Theorem sprintf_tree_noninterference_hk fuel env f a1 a2 o1 o2 :
-  osane (orc env) -> (hk = false -> hook env = None) -> no_star f = true -> Forall2 arel a1 a2 ->
+Theorem sprintf_tree_noninterference fuel env f a1 a2 o1 o2 :
+  osane (orc env) -> hook_ok env -> no_star f = true -> Forall2 arel a1 a2 ->
   sprintf fuel env f a1 = ROk o1 -> sprintf fuel env f a2 = ROk o2 ->
   forall ops1 ops2, o_log o1 = ops1 ++ [OTake] -> o_log o2 = ops2 ++ [OTake] ->
   rawok ops1 = true -> ptail_ok_from init ops1 = true -> ptail_ok_from init ops2 = true ->
@@ -2173,11 +2189,11 @@ Proof.
   rewrite B1, B2. eapply redact_noninterference_seg; eassumption.
 Qed.
 
-Print Assumptions sprintf_tree_noninterference_hk.
+Print Assumptions sprintf_tree_noninterference.
 
 (* the same for Sprint *)
 Theorem sprint_tree_dsim fuel env a1 a2 o1 o2 :
-  osane (orc env) -> (hk = false -> hook env = None) -> Forall2 arel a1 a2 ->
+  osane (orc env) -> hook_ok env -> Forall2 arel a1 a2 ->
   sprint fuel env a1 = ROk o1 -> sprint fuel env a2 = ROk o2 ->
   exists ops1 ops2 m', o_log o1 = ops1 ++ [OTake] /\ o_log o2 = ops2 ++ [OTake] /\
                        o_bytes o1 = output ops1 /\ o_bytes o2 = output ops2 /\ dsim MUnsafe ops1 ops2 m'.
@@ -2200,8 +2216,8 @@ Proof.
   rewrite L1, L2. cbn [newPrinter fresh_pp pl l_init rlog]. rewrite !app_nil_r. exact D.
 Qed.
 
-Theorem sprint_tree_noninterference_hk fuel env a1 a2 o1 o2 :
-  osane (orc env) -> (hk = false -> hook env = None) -> Forall2 arel a1 a2 ->
+Theorem sprint_tree_noninterference fuel env a1 a2 o1 o2 :
+  osane (orc env) -> hook_ok env -> Forall2 arel a1 a2 ->
   sprint fuel env a1 = ROk o1 -> sprint fuel env a2 = ROk o2 ->
   forall ops1 ops2, o_log o1 = ops1 ++ [OTake] -> o_log o2 = ops2 ++ [OTake] ->
   rawok ops1 = true -> ptail_ok_from init ops1 = true -> ptail_ok_from init ops2 = true ->
@@ -2212,67 +2228,28 @@ Proof.
   rewrite E1 in F1. rewrite E2 in F2. apply app_inj_tail in F1, F2. destruct F1 as [<- _], F2 as [<- _].
   rewrite B1, B2. eapply redact_noninterference_seg; eassumption.
 Qed.
-Print Assumptions sprint_tree_noninterference_hk.
+Print Assumptions sprint_tree_noninterference.
 
 (* the leaf-only statements as corollaries *)
 Lemma lrel_vrel_list a1 a2 : Forall2 lrel a1 a2 -> Forall2 arel a1 a2.
 Proof. induction 1; constructor; [apply ar_v; now apply vr_leaf | assumption]. Qed.
 
-Theorem sprintf_leaf_noninterference_hk fuel env f a1 a2 o1 o2 :
-  osane (orc env) -> (hk = false -> hook env = None) -> no_star f = true -> Forall2 lrel a1 a2 ->
-  sprintf fuel env f a1 = ROk o1 -> sprintf fuel env f a2 = ROk o2 ->
-  forall ops1 ops2, o_log o1 = ops1 ++ [OTake] -> o_log o2 = ops2 ++ [OTake] ->
-  rawok ops1 = true -> ptail_ok_from init ops1 = true -> ptail_ok_from init ops2 = true ->
-  Markers.redact_b (o_bytes o1) = Markers.redact_b (o_bytes o2).
-Proof. intros Ho Hh Hns Ha. apply sprintf_tree_noninterference_hk; auto. now apply lrel_vrel_list. Qed.
-
-Theorem sprint_leaf_noninterference_hk fuel env a1 a2 o1 o2 :
-  osane (orc env) -> (hk = false -> hook env = None) -> Forall2 lrel a1 a2 ->
-  sprint fuel env a1 = ROk o1 -> sprint fuel env a2 = ROk o2 ->
-  forall ops1 ops2, o_log o1 = ops1 ++ [OTake] -> o_log o2 = ops2 ++ [OTake] ->
-  rawok ops1 = true -> ptail_ok_from init ops1 = true -> ptail_ok_from init ops2 = true ->
-  Markers.redact_b (o_bytes o1) = Markers.redact_b (o_bytes o2).
-Proof. intros Ho Hh Ha. apply sprint_tree_noninterference_hk; auto. now apply lrel_vrel_list. Qed.
-End HK.
-
-(* ---------- the statements, with the hook flag tied to the environment ---------- *)
-Definition hooked (e : env) : bool := match hook e with Some _ => true | None => false end.
-Lemma hooked_spec e : hooked e = false -> hook e = None.
-Proof. unfold hooked. destruct (hook e); [discriminate | reflexivity]. Qed.
-
-(* Non-interference of Sprintf / Sprint for operands printed by reflection and by string-returning
-   methods: Redact() of the two results is byte-identical *)
-Theorem sprintf_tree_noninterference fuel env f a1 a2 o1 o2 :
-  osane (orc env) -> no_star f = true -> Forall2 (arel (hooked env)) a1 a2 ->
-  sprintf fuel env f a1 = ROk o1 -> sprintf fuel env f a2 = ROk o2 ->
-  forall ops1 ops2, o_log o1 = ops1 ++ [OTake] -> o_log o2 = ops2 ++ [OTake] ->
-  rawok ops1 = true -> ptail_ok_from init ops1 = true -> ptail_ok_from init ops2 = true ->
-  Markers.redact_b (o_bytes o1) = Markers.redact_b (o_bytes o2).
-Proof. intros Ho. apply (sprintf_tree_noninterference_hk (hooked env)); [exact Ho | apply hooked_spec]. Qed.
-
-Theorem sprint_tree_noninterference fuel env a1 a2 o1 o2 :
-  osane (orc env) -> Forall2 (arel (hooked env)) a1 a2 ->
-  sprint fuel env a1 = ROk o1 -> sprint fuel env a2 = ROk o2 ->
-  forall ops1 ops2, o_log o1 = ops1 ++ [OTake] -> o_log o2 = ops2 ++ [OTake] ->
-  rawok ops1 = true -> ptail_ok_from init ops1 = true -> ptail_ok_from init ops2 = true ->
-  Markers.redact_b (o_bytes o1) = Markers.redact_b (o_bytes o2).
-Proof. intros Ho. apply (sprint_tree_noninterference_hk (hooked env)); [exact Ho | apply hooked_spec]. Qed.
-
 Theorem sprintf_leaf_noninterference fuel env f a1 a2 o1 o2 :
-  osane (orc env) -> no_star f = true -> Forall2 lrel a1 a2 ->
+  osane (orc env) -> hook_ok env -> no_star f = true -> Forall2 lrel a1 a2 ->
   sprintf fuel env f a1 = ROk o1 -> sprintf fuel env f a2 = ROk o2 ->
   forall ops1 ops2, o_log o1 = ops1 ++ [OTake] -> o_log o2 = ops2 ++ [OTake] ->
   rawok ops1 = true -> ptail_ok_from init ops1 = true -> ptail_ok_from init ops2 = true ->
   Markers.redact_b (o_bytes o1) = Markers.redact_b (o_bytes o2).
-Proof. intros Ho. apply (sprintf_leaf_noninterference_hk true); [exact Ho | discriminate]. Qed.
+Proof. intros Ho Hh Hns Ha. apply sprintf_tree_noninterference; auto. now apply lrel_vrel_list. Qed.
 
 Theorem sprint_leaf_noninterference fuel env a1 a2 o1 o2 :
-  osane (orc env) -> Forall2 lrel a1 a2 ->
+  osane (orc env) -> hook_ok env -> Forall2 lrel a1 a2 ->
   sprint fuel env a1 = ROk o1 -> sprint fuel env a2 = ROk o2 ->
   forall ops1 ops2, o_log o1 = ops1 ++ [OTake] -> o_log o2 = ops2 ++ [OTake] ->
   rawok ops1 = true -> ptail_ok_from init ops1 = true -> ptail_ok_from init ops2 = true ->
   Markers.redact_b (o_bytes o1) = Markers.redact_b (o_bytes o2).
-Proof. intros Ho. apply (sprint_leaf_noninterference_hk true); [exact Ho | discriminate]. Qed.
+Proof. intros Ho Hh Ha. apply sprint_tree_noninterference; auto. now apply lrel_vrel_list. Qed.
+
 Print Assumptions sprintf_tree_noninterference.
 Print Assumptions sprint_tree_noninterference.
 Print Assumptions sprintf_leaf_noninterference.
